@@ -1912,6 +1912,78 @@ def render_history(spec):
 
 # =============================================================================================
 
+# =============================================================================================
+# versions: long version histories of one output name (numbers beyond two digits, dense runs, gaps)
+
+@st.composite
+def strat_versions(draw, tier):
+    name = draw(st.sampled_from(['m', 'model_a', 'sub/m', 'm~1', 'm.v2', 'm2']))
+    ext = draw(st.sampled_from(['html', 'pickle', 'tex', 'F12', 'dat']))
+    dense = draw(st.sampled_from([0, 3, 9, 10, 11, 98, 99, 100, 101, 102, 110, 130, 1005]))
+    if tier == 'thorough':
+        dense = draw(st.one_of(st.just(dense), st.integers(0, 1200)))
+    removed = draw(st.lists(st.integers(0, max(dense, 1)), max_size=3, unique=True))
+    extra = draw(st.lists(st.integers(0, 1300), max_size=4, unique=True))
+    plain = draw(st.integers(0, 9)) >= 1
+    calls = draw(st.integers(1, 6))
+    width3 = draw(st.booleans())  # distractors written with three digits (~007): not a library spelling
+    return dict(name=name, ext=ext, dense=dense, removed=sorted(removed), extra=sorted(extra), plain=plain,
+                calls=calls, width3=width3)
+
+
+def _observe_versions_here(spec):
+    name, ext = spec['name'], spec['ext']
+    if '/' in name:
+        os.makedirs(os.path.dirname(name), exist_ok=True)
+    present = set(range(spec['dense'])) - set(spec['removed']) | set(spec['extra'])
+    if spec['plain']:
+        open(f'{name}.{ext}', 'w').write('plain')
+    for k in sorted(present):
+        open(f'{name}~{k:02d}.{ext}', 'w').write(f'v{k}')
+    if spec['width3']:
+        for k in (7, 42):
+            open(f'{name}~{k:03d}.{ext}', 'w').write('distractor')
+    before = _snapshot()
+    got = []
+    for _ in range(spec['calls']):
+        fn = bfn.get_new_file_name(name, ext)
+        existed = os.path.exists(fn)
+        got.append([fn, existed])
+        if not existed:
+            open(fn, 'w').write('new output')
+    after = _snapshot()
+    changed = sorted(k for k in before if after.get(k) != before[k])
+    return dict(got=got, changed=changed, n_before=len(before))
+
+
+def judge_versions(spec) -> Outcome:
+    out = Outcome()
+    obs = _in_scratch(_observe_versions_here, spec)
+    name, ext = spec['name'], spec['ext']
+    seen = set()
+    for fn, existed in obs['got']:
+        if existed:
+            out.fail('get_new_file_name:returns_existing', f'get_new_file_name({name!r}, {ext!r}) returned {fn!r}, a file '
+                     f'that exists ({obs["n_before"]} files in the directory): the writer would overwrite it')
+        if fn in seen:
+            out.fail('get_new_file_name:same_name_twice', f'{fn!r} returned twice although the caller created it')
+        seen.add(fn)
+        if not (fn.startswith(name) and fn.endswith('.' + ext)):
+            out.fail('get_new_file_name:form', f'{fn!r} is not of the form {name}[~NN].{ext}')
+    if obs['changed']:
+        out.fail('get_new_file_name:earlier_output_changed', f'earlier files changed: {obs["changed"][:4]}')
+    out.nontrivial = spec['plain'] and spec['dense'] - len(spec['removed']) >= 99
+    out.classes = [f"dense:{'>=100' if spec['dense'] >= 100 else '10..99' if spec['dense'] >= 10 else '<10'}",
+                   'plain' if spec['plain'] else 'no_plain', 'gaps' if spec['removed'] else 'no_gaps']
+    out.evaluations = spec['calls']
+    return out
+
+
+def render_versions(spec):
+    return (f"{spec['name']}.{spec['ext']} {'present' if spec['plain'] else 'absent'}, versions 00..{spec['dense'] - 1} "
+            f"minus {spec['removed']} plus {spec['extra']}; {spec['calls']} x (get_new_file_name, create)")
+
+
 SUBCHECKS = [
     SubCheck('pickle', strat_pickle, judge_pickle, lambda s: render_results(s['results']) +
              f" pre_writes={s['pre_writes']} generations={s['generations']} recycle={s['recycle']}",
@@ -1948,5 +2020,10 @@ SUBCHECKS = [
              '(+caller creates the file), create_backup, estimate} in a directory (with a sub-directory) seeded '
              'with m.ext, m~NN.ext (gaps), *_dumped.dat, backup names; model / database / file names plain, '
              'sub/name, ./name or absolute; non-trivial: >= 3 writes of one kind and a seeded collision'),
+    SubCheck('versions', strat_versions, judge_versions, render_versions, dict(quick=240, thorough=6000),
+             'a directory holding name.ext and name~00 .. name~(k-1) (k up to 1005 / 1200; gaps, stray higher numbers, '
+             'three-digit distractors), then 1-6 x (get_new_file_name, caller creates the file): the name returned '
+             'never exists, is never returned twice, earlier files unchanged; non-trivial: >= 99 versions present '
+             '(numbers of three digits are reached)'),
 ]
 RULE = ' | '.join(f'{s.name}: {s.rule}' for s in SUBCHECKS)
